@@ -150,7 +150,7 @@ PROPS.update({
     },
     "C11": {
         "level": "proof",
-        "text": "Kernel-checked: ids_unique for any number of spawns (the allocator constants are extracted from src/lib.rs), alive_true / alive_false (is_alive on a strong handle is true until the actor has ended and false afterwards, for every run), sends_fail_after_end, upgrade_iff. Identity copying and the two-channel liveness predicates are extracted shape lemmas (handle_algebra_shape, forwarders_verbatim). Probes alive/upgrade are script operations compared step by step with the real crate; monitor C11 on real traces.",
+        "text": "Kernel-checked: ids_unique for any number of spawns (the allocator constants are extracted from src/lib.rs), alive_true / alive_false (is_alive on a strong handle is true until the actor has ended and false afterwards, for every run), sends_fail_after_end, upgrade_iff. Identity copying and the two-channel liveness predicates are extracted shape lemmas (handle_algebra_shape, forwarders_verbatim). upgrade_truthful_monitor (Inv/Handles: the strong handles read off the trace are those of the handle table, and every failed upgrade in every run happened while the script held none - the predicate Monitor.C11.upgradeTruthful that runs on real traces). Probes alive/upgrade are script operations compared step by step with the real crate; monitor C11 on real traces; stress ids (incl. failing on_start) and refs (no-yield handle sequences, identity through every way of copying a handle between two actors).",
         "note": PROOF_NOTE + " Atomicity of fetch_add is assumed (std); identities of different actors are compared in the multi-actor scripts of C12/C14.",
         "technique": "Lean 4 theorems on the step function and the allocator + extracted shape lemmas + correspondence with liveness probes",
         "extra": ["stress"],
